@@ -293,19 +293,21 @@ int fcntl64(int fd, int cmd, ...) { va_list ap; va_start(ap, cmd); void *a = va_
 struct Cfg {
   int K = 1, T = 1, jobs = 2, cache = 1, maxjobs = -1;
   int seed = 0;          // pre-seeded job file pattern (0 = all AVAILABLE), see seed_status()
-  std::string restart;   // restart pattern of every process
+  std::string restart;   // restart pattern of the first process (and of the others unless restart2 is set)
+  std::string restart2 = "=";  // restart pattern of processes 2.. ("=" : same as restart)
   int crash_at = -1, crash_bytes = -1, scan = 0;
   bool recovery = false; // second phase after a crash: one fresh process with restart stat(ASSIGNED)
 };
 static std::string cfgstr(const Cfg &c) {
   return "K=" + std::to_string(c.K) + ";T=" + std::to_string(c.T) + ";jobs=" + std::to_string(c.jobs) + ";cache=" + std::to_string(c.cache) +
-         ";maxjobs=" + std::to_string(c.maxjobs) + ";seed=" + std::to_string(c.seed) + ";restart=" + c.restart + ";crash=" +
+         ";maxjobs=" + std::to_string(c.maxjobs) + ";seed=" + std::to_string(c.seed) + ";restart=" + c.restart + ";restart2=" + c.restart2 + ";crash=" +
          std::to_string(c.crash_at) + ":" + std::to_string(c.crash_bytes) + ";scan=" + std::to_string(c.scan);
 }
 static Cfg parsecfg(std::map<std::string, std::string> &m) {
   Cfg c;
   c.K = atoi(m["K"].c_str()); c.T = atoi(m["T"].c_str()); c.jobs = atoi(m["jobs"].c_str()); c.cache = atoi(m["cache"].c_str());
   c.maxjobs = atoi(m["maxjobs"].c_str()); c.seed = atoi(m["seed"].c_str()); c.restart = m["restart"]; c.scan = atoi(m["scan"].c_str());
+  c.restart2 = m.count("restart2") ? m["restart2"] : "=";
   auto cr = bsx::split(m["crash"], ':');
   if (cr.size() == 2) { c.crash_at = atoi(cr[0].c_str()); c.crash_bytes = atoi(cr[1].c_str()); }
   return c;
@@ -333,6 +335,10 @@ static SeedJob seed_job(int seed, int j) {
         case 2: return {"FAILED", HOSTB, ""};
         default: return {"AVAILABLE", "", ""};
       }
+    }
+    case 3: {  // odd jobs COMPLETE@B (with a result), even jobs AVAILABLE
+      if (j % 2 == 1) return {"COMPLETE", HOSTB, "old" + std::to_string(j)};
+      return {"AVAILABLE", "", ""};
     }
   }
   return {"AVAILABLE", "", ""};
@@ -459,6 +465,7 @@ static void child_body(const Cfg &c, vs_shared *shm, const std::vector<int> &cho
     procs.push_back(std::make_unique<Proc>());
     procs.back()->pid = (c.recovery ? 2001 : PID0) + p;
     procs.back()->cfg = c;
+    if (p > 0 && c.restart2 != "=") procs.back()->cfg.restart = c.restart2;
   }
   vs_begin(shm, choices.data(), (int)choices.size(), horizon);
   io::on = true;
@@ -495,26 +502,32 @@ static std::string hostname_str() { char h[128]; gethostname(h, sizeof h); retur
 
 // which seeded jobs does a restart pattern re-open (statement: AVAILABLE + named host + named status).
 // Pattern grammar as documented: host(h1,h2) stat(S1,S2), blanks ignored.
-static bool eligible(const Cfg &c, int j) {
-  SeedJob s = seed_job(c.seed, j);
+static bool eligible_for(const std::string &restart, int seed, int j) {
+  SeedJob s = seed_job(seed, j);
   if (s.status == "AVAILABLE") return true;
   std::string p;
-  for (char ch : c.restart) if (ch != ' ') p += ch;
+  for (char ch : restart) if (ch != ' ') p += ch;
   std::string cat, tok;
-  auto flush = [&](bool &hit) {
+  bool hit = false;
+  auto flush = [&]() {
     if (tok.empty()) return;
     if (tok == "host" || tok == "stat") cat = tok;
     else if (cat == "host" && !s.host.empty() && tok == s.host) hit = true;
     else if (cat == "stat" && tok == s.status) hit = true;
     tok.clear();
   };
-  bool hit = false;
   for (char ch : p) {
-    if (ch == '(' || ch == ',' || ch == ')') flush(hit);
+    if (ch == '(' || ch == ',' || ch == ')') flush();
     else tok += ch;
   }
-  flush(hit);
+  flush();
   return hit;
+}
+// every process scans the whole list, so a job is (re-)opened iff some process's pattern names it
+static bool eligible(const Cfg &c, int j) {
+  if (eligible_for(c.restart, c.seed, j)) return true;
+  if (c.K > 1 && c.restart2 != "=" && eligible_for(c.restart2, c.seed, j)) return true;
+  return false;
 }
 
 struct Verdict { bool ok = true; std::string key, what, obs; };
@@ -744,6 +757,17 @@ int main(int argc, char **argv) {
           Cfg c; c.K = kt.first; c.T = kt.second; c.jobs = 4; c.cache = 2; c.seed = seed; c.restart = rs;
           cfgs.push_back(c);
         }
+    // two processes, one of which (or both) re-opens COMPLETE jobs of another host while the other one still
+    // holds the old record: results reported by one process must not be overwritten by the other
+    for (int jobs : {2, 3})
+      for (auto rr : std::vector<std::pair<std::string, std::string>>{{std::string("host(") + HOSTB + ")", "="}, {"", std::string("host(") + HOSTB + ")"},
+                                                                       {std::string("host(") + HOSTB + ")", ""}}) {
+        if (!thorough && jobs == 3) continue;
+        // (patterns naming COMPLETE are not used with two live processes: like ASSIGNED above, COMPLETE is a status the
+        // other process produces during the run, so the pattern tells its owner to re-open jobs the other has just finished)
+        Cfg c; c.K = 2; c.T = 1; c.jobs = jobs; c.cache = 1; c.seed = 3; c.restart = rr.first; c.restart2 = rr.second;
+        cfgs.push_back(c);
+      }
     auto bound_for = [&](const Cfg &c) {
       int n = c.K * c.T;
       if (n == 1) return 0;
